@@ -930,6 +930,8 @@ pub fn units() -> Vec<Unit> {
             Struct("TxChannel"),
             Struct("RxWindows"),
             Fn("Mac::rx_windows"),
+            // builder H: the window selection
+            Fn("RxWindows::get"),
         ],
     },
     // ---- builder W (tie A for the MAC's top-level state machine)
@@ -1120,6 +1122,34 @@ pub fn units() -> Vec<Unit> {
             ExternUnit("Gen.Region"),
             ExternEnum("Region"),
             CustomMulti(crate::dispatch::region_dispatch),
+        ],
+    },
+    Unit {
+        module: "Gen.RegionPayload",
+        file: "lorawan-device/src/region/mod.rs",
+        more_files: vec![
+            "lorawan-encoding/src/types.rs",
+            "lorawan-device/src/region/constants.rs",
+            "lorawan-device/src/mac/mod.rs",
+            "lora-modulation/src/lib.rs",
+            "lorawan-device/src/region/dynamic_channel_plans/mod.rs",
+            "lorawan-device/src/region/dynamic_channel_plans/eu868.rs",
+            "lorawan-device/src/region/dynamic_channel_plans/eu433.rs",
+            "lorawan-device/src/region/dynamic_channel_plans/in865.rs",
+            "lorawan-device/src/region/dynamic_channel_plans/as923.rs",
+            "lorawan-device/src/region/fixed_channel_plans/mod.rs",
+            "lorawan-device/src/region/fixed_channel_plans/us915/mod.rs",
+            "lorawan-device/src/region/fixed_channel_plans/us915/datarates.rs",
+            "lorawan-device/src/region/fixed_channel_plans/us915/frequencies.rs",
+            "lorawan-device/src/region/fixed_channel_plans/au915/mod.rs",
+            "lorawan-device/src/region/fixed_channel_plans/au915/datarates.rs",
+            "lorawan-device/src/region/fixed_channel_plans/au915/frequencies.rs",
+        ],
+        imports: vec!["LoraVerif.Gen.Region", "LoraVerif.Gen.RegionStatic"],
+        items: vec![
+            ExternUnit("Gen.Region"),
+            ExternEnum("Region"),
+            CustomMulti(crate::dispatch::region_static_dispatch),
         ],
     },
     Unit {
